@@ -40,6 +40,14 @@ def systems(tier):
         out.append(dict(types=["CH5"], molecules=[("CH5", 2)], kwargs=dict(max_force=mf), **base))
         out.append(dict(types=["RING4", "W"], molecules=[("W", 2), ("RING4", 1)], kwargs=dict(max_force=mf), **base))
     out.append(dict(types=["MIX3"], molecules=[("MIX3", 2)], **base))
+    # growth starts at an inner residue (-start): placement order differs from the order of the residues in the topology
+    for mf in (10.0, None):
+        kw = dict(start=["CH4-B#2"])
+        if mf:
+            kw["max_force"] = mf
+        out.append(dict(types=["CH4"], molecules=[("CH4", 2)], kwargs=dict(kw), **base))
+        kw2 = dict(kw, start=["BR4-B#4"])
+        out.append(dict(types=["BR4", "W"], molecules=[("BR4", 1), ("W", 2), ("BR4", 1)], kwargs=kw2, **base))
     # off-lattice start point 0.05 nm from a site the chain reaches: only the 0.1 nm floor can reject it (force limit disabled)
     out.append(dict(types=["CH3", "W"], molecules=[("W", 1), ("CH3", 1)], box=[2.5, 2.5, 2.5],
                     grid=[[0.80, 0.25, 0.25], [0.25, 0.25, 0.25], [1.25, 1.30, 1.25], [2.0, 2.0, 2.0]], kwargs=dict(max_force=1e30)))
